@@ -11,9 +11,10 @@ CONSTANTS
   MaxLocal = 1
   MaxInbound = 1
   MaxTime = 660
+  Faults = TRUE
   UseFourth = FALSE
   SetIdxs = {0}
-  TimeSteps = {1, 2, 3, 7}
+  TimeSteps = {1, 3, 7}
 VIEW View
 INVARIANTS
   TypeOK
